@@ -33,7 +33,7 @@ ASSUMPTIONS = ['the scripted transport (mc/transport.py) and the C02 response te
                'or stream the configuration names)',
                'outcome equality = equal strict dump of the result, or same exception class and args']
 BOUNDS = {'quick': {'integer_levels': 'all 0..R+2 on 3 multi-byte scenarios (http and api logger)'},
-          'thorough': {'integer_levels': 'all 0..R+2 on every scenario'}}
+          'thorough': {'integer_levels': 'all 0..R+2 on the 46 hand-picked scenarios (not on the additional undeviated templates)'}}
 NSHARDS = 64
 PASSWORD = 'pa$$w%rd(.*)\\1{0}'
 USER = 'user'
@@ -419,7 +419,7 @@ def cases(tier):
     for scn in all_scenarios():
         for cfg in named_configs():
             yield list(scn), cfg
-    intscn = MULTIBYTE if tier == 'quick' else all_scenarios()
+    intscn = MULTIBYTE if tier == 'quick' else SCENARIOS      # (every template would take hours)
     for scn in intscn:
         R_ = max_len(scn)
         for n in range(0, R_ + 3):
